@@ -59,22 +59,32 @@ Variables (bv : val) (o : list Z).
 Inductive cols_sem (m : list Z) : nat -> list val -> heap -> Prop :=
 | cols_nil b : cols_sem m b [] []
 | cols_cons b hnew hs rest : (1 <= List.length hnew)%nat -> cs_sem bv o m b hnew -> cols_sem m (b + List.length hnew) hs rest ->
-    cols_sem m b (VCell b 0 :: hs) (hnew ++ rest).
+    cols_sem m b (VCell b 0 :: hs) (hnew ++ rest)
+| cols_skip b c hs rest : as_ptr c = VNull -> cols_sem m b hs rest -> cols_sem m b (c :: hs) rest.        (* a column the subset leaves out: an empty slot *)
 
 Lemma cs_sem_mono m m2 b hnew : zlen m <= zlen m2 -> cs_sem bv o m b hnew -> cs_sem bv o m2 b hnew.
 Proof. intros Hm C pre x m3 kk sxx Hp Hm3. apply C; [exact Hp|lia]. Qed.
 
 Lemma cols_mono m m2 : zlen m <= zlen m2 -> forall b hs blocks, cols_sem m b hs blocks -> cols_sem m2 b hs blocks.
-Proof. intros Hm b hs blocks C. induction C as [b|b hnew hs rest Hn Cs C IH]; [apply cols_nil|apply cols_cons; [exact Hn|apply (cs_sem_mono m m2); assumption|exact IH]]. Qed.
+Proof. intros Hm b hs blocks C. induction C as [b|b hnew hs rest Hn Cs C IH|b c hs rest Hc C IH]; [apply cols_nil|apply cols_cons; [exact Hn|apply (cs_sem_mono m m2); assumption|exact IH]|apply cols_skip; assumption]. Qed.
 
 Lemma cols_snoc m : forall b hs blocks, cols_sem m b hs blocks -> forall hnew, (1 <= List.length hnew)%nat -> cs_sem bv o m (b + List.length blocks) hnew ->
   cols_sem m b (hs ++ [VCell (b + List.length blocks) 0]) (blocks ++ hnew).
 Proof.
-  intros b hs blocks C. induction C as [b|b hnew0 hs rest Hn0 Cs0 C IH]; intros hnew Hn Cs.
+  intros b hs blocks C. induction C as [b|b hnew0 hs rest Hn0 Cs0 C IH|b c hs rest Hc C IH]; intros hnew Hn Cs.
   - cbn [app List.length] in *. rewrite Nat.add_0_r in *. rewrite <- (app_nil_r hnew). apply cols_cons; [exact Hn|exact Cs|apply cols_nil].
   - cbn [app]. rewrite <- app_assoc. apply cols_cons; [exact Hn0|exact Cs0|].
     replace (b + List.length (hnew0 ++ rest))%nat with (b + List.length hnew0 + List.length rest)%nat in * by (rewrite app_length; lia).
     apply IH; assumption.
+  - cbn [app]. apply cols_skip; [exact Hc|]. apply IH; assumption.
+Qed.
+
+Lemma cols_snoc_skip m : forall b hs blocks, cols_sem m b hs blocks -> forall c, as_ptr c = VNull -> cols_sem m b (hs ++ [c]) blocks.
+Proof.
+  intros b hs blocks C. induction C as [b|b hnew0 hs rest Hn0 Cs0 C IH|b c0 hs rest Hc C IH]; intros c Hc'.
+  - cbn [app]. apply cols_skip; [exact Hc'|apply cols_nil].
+  - cbn [app]. apply cols_cons; [exact Hn0|exact Cs0|apply IH; exact Hc'].
+  - cbn [app]. apply cols_skip; [exact Hc|apply IH; exact Hc'].
 Qed.
 
 (* ================================================================== sbdf_ts_destroy on a table slice that owns its columns, some slots still empty *)
@@ -88,7 +98,7 @@ Lemma ts_sem_loop k sx m tb colb n meta cols ccells : forall b hs blocks, cols_s
     (fr [("slice"%string, VCell tb 0); ("i"%string, VInt (zlen done))] bv k sx (hp ++ blocks ++ x) m o)
     (ONormal (fr [("slice"%string, VCell tb 0); ("i"%string, VInt n)] bv k sx (hp ++ nones (List.length blocks) ++ x) m o)).
 Proof.
-  intros b hs blocks C. induction C as [b|b hnew hs rest Hn Cs C IH]; intros done nulls slack hp x Hp Hz Hmax Hnl Hhp Ht Hcol Hcb; unfold int_max in Hmax.
+  intros b hs blocks C. induction C as [b|b hnew hs rest Hn Cs C IH|b c hs rest Hc C IH]; intros done nulls slack hp x Hp Hz Hmax Hnl Hhp Ht Hcol Hcb; unfold int_max in Hmax.
   - (* only empty slots are left *)
     cbn [app List.length nones repeat]. revert done Hp Hz Hnl. induction nulls as [|c nulls IHn]; intros done Hp Hz Hnl; unfold fr.
     + change (zlen (@nil val)) with 0 in Hz. replace (zlen done) with n by lia.
@@ -134,6 +144,25 @@ Proof.
       replace ((hp ++ nones (List.length hnew)) ++ rest ++ x) with (hp ++ nones (List.length hnew) ++ rest ++ x) in R by (rewrite <- app_assoc; reflexivity).
       replace ((hp ++ nones (List.length hnew)) ++ nones (List.length rest) ++ x) with (hp ++ nones (List.length (hnew ++ rest)) ++ x) in R
         by (rewrite app_length, <- nones_app, <- !app_assoc; reflexivity).
+      exact R.
+  - (* an empty slot among the columns *)
+    pose proof (zlen_nonneg done) as Pd. pose proof (zlen_nonneg hs) as Ph. pose proof (zlen_nonneg nulls) as Pn. rewrite zlen_cons in Hz.
+    assert (Lt : (tb < List.length hp)%nat) by (apply nth_error_Some; congruence).
+    assert (Lc : (colb < List.length hp)%nat) by (apply nth_error_Some; congruence).
+    set (H0 := hp ++ rest ++ x).
+    assert (Ht' : nth_error H0 tb = Some (Some [meta; VInt n; cols; VInt 1])) by (unfold H0; rewrite nth_error_app1 by lia; exact Ht).
+    assert (Hcb' : nth_error H0 colb = Some (Some ccells)) by (unfold H0; rewrite nth_error_app1 by lia; exact Hcb).
+    assert (Hnth : nth_error ccells (Z.to_nat (0 + zlen done)) = Some c).
+    { rewrite Hp. replace (Z.to_nat (0 + zlen done)) with (List.length done) by (unfold zlen; lia). rewrite nth_error_app2 by lia. rewrite Nat.sub_diag. reflexivity. }
+    unfold fr. fold H0.
+    eapply bsE_while_t; [evs; chk7; evs; cellrw Ht'; evs; replace (zlen done <? n) with true by lia; reflexivity|reflexivity| |].
+    + eapply bsE_seq.
+      * eapply bsE_call_void; [reflexivity
+           |evs; chk7; evs; cellrw Ht'; evs; rewrite Hcol; evs; unfold cell_get; rewrite Hcb'; replace (0 <=? 0 + zlen done) with true by lia; rewrite Hnth; evs; rewrite Hc; reflexivity
+           |reflexivity|evs; cbn [fbody prog_sbdf_cs_destroy]; eapply bsE_if; [evs; reflexivity|reflexivity|apply bsE_skip]|evs; reflexivity].
+      * eapply bsE_expr. evs. unfold incr. chk7. evs. reflexivity.
+    + replace (zlen done + 1) with (zlen (done ++ [c])) by (rewrite zlen_app; reflexivity).
+      pose proof (IH (done ++ [c]) nulls slack hp x ltac:(rewrite Hp, <- app_assoc; reflexivity) ltac:(rewrite zlen_app; change (zlen [c]) with 1; lia) ltac:(unfold int_max; lia) Hnl Hhp Ht Hcol Hcb) as R.
       exact R.
 Qed.
 
